@@ -132,6 +132,9 @@ func (env *Env) evalCall(x *ast.CallExpr, st *State) Val {
 				return jsonDecoded(env, d, t)
 			case "held":
 				// held(x.mu): the mutex is held at this point of the path
+				if env.callerSide {
+					return boolVal("true")
+				}
 				if sel, ok := unparen(x.Args[0]).(*ast.SelectorExpr); ok {
 					base := env.eval(sel.X, st)
 					if st.held[base.T+"."+sel.Sel.Name] || st.held["*."+sel.Sel.Name] {
@@ -142,6 +145,11 @@ func (env *Env) evalCall(x *ast.CallExpr, st *State) Val {
 			case "called":
 				// called(Name): a call of Name happened on the path that reached this point
 				// (loops forget the calls of their bodies: use it for straight-line code)
+				if env.callerSide {
+					// in a callee's postcondition, seen from a call site: about the callee's own
+					// calls, nothing the caller can use
+					return boolVal("true")
+				}
 				if id, ok := unparen(x.Args[0]).(*ast.Ident); ok {
 					for _, p := range st.calls {
 						if p == id.Name {
